@@ -213,7 +213,7 @@ def _alias_of(pa, t):
     return t
 
 
-def check_release(chk, prog, eff, cache, ctors, off):
+def check_release(chk, prog, eff, cache, ctors, off, R="C04.release", RX="C04.release-exhaustive"):
     f = prog.fn("cbor_decref")
     where = "%s:%d" % (f.file, f.line)
     T = prog.enum("cbor_type")
@@ -226,7 +226,7 @@ def check_release(chk, prog, eff, cache, ctors, off):
             interior.add(t)
     must_free = {t for t in T.values() if t not in interior and kinds.get(t, set()) != {"null"}}
     ps = cache.get("cbor_decref")
-    chk.floor("C04.release", "paths of cbor_decref", len(ps), 15)
+    chk.floor(R, "paths of cbor_decref", len(ps), 15)
     seen_types = set()
     nz = 0
     tag_off = off["metadata"] + prog.field_offset("_cbor_tag_metadata", "tagged_item")
@@ -255,7 +255,7 @@ def check_release(chk, prog, eff, cache, ctors, off):
             raise AnalysisBroken("cbor_decref path %d: no test of the decremented count" % k)
         if not zero:
             ok = not frees and not decs and not nulls
-            chk.ob("C04.release", "path %d: count stays positive -> nothing released" % k, ok, where, fn=f.name, key="positive:%d" % k,
+            chk.ob(R, "path %d: count stays positive -> nothing released" % k, ok, where, fn=f.name, key="positive:%d" % k,
                    detail="" if ok else "%d frees, %d child releases, %d stores to *item_ref" % (len(frees), len(decs), len(nulls)))
             continue
         nz += 1
@@ -270,37 +270,58 @@ def check_release(chk, prog, eff, cache, ctors, off):
         # item freed last, once; then only the NULL store
         item_frees = [e for e in frees if e.args[0] == ITEM]
         ok = len(item_frees) == 1 and frees[-1] is item_frees[0]
-        chk.ob("C04.release", "path %d (%s): the item block is freed exactly once, after everything else" % (k, tname), ok, where,
+        chk.ob(R, "path %d (%s): the item block is freed exactly once, after everything else" % (k, tname), ok, where,
                fn=f.name, key="itemlast:%s:%d" % (tname, k))
         if ok:
             idx = pa.events.index(item_frees[0])
             after = [e for e in pa.events[idx + 1:] if e.kind in ("load", "store", "call", "memcpy")
                      and not (e.kind == "store" and ptr_key(e.args[0]) == (("arg", 0), 0) and e.args[1] == ("c", 0))]
             touching = [e for e in after if any(isinstance(a, tuple) and P.derives(a, ITEM) for a in e.args)]
-            chk.ob("C04.release", "path %d (%s): nothing touches the item after it is freed" % (k, tname), not touching, where,
+            chk.ob(R, "path %d (%s): nothing touches the item after it is freed" % (k, tname), not touching, where,
                    fn=f.name, key="afterfree:%s:%d" % (tname, k), detail=str(touching[:1]) if touching else "")
-            chk.ob("C04.release", "path %d (%s): the caller's pointer is nulled" % (k, tname), len(nulls) == 1 and nulls[0].args[1] == ("c", 0),
+            chk.ob(R, "path %d (%s): the caller's pointer is nulled" % (k, tname), len(nulls) == 1 and nulls[0].args[1] == ("c", 0),
                    where, fn=f.name, key="null:%s:%d" % (tname, k))
         # data block
         data_frees = [e for e in frees if e.args[0][0] == "ld" and e.args[0][1] == ITEM and e.args[0][2] == off["data"]]
         for t in types:
             if t in interior:
                 ok = not data_frees
-                chk.ob("C04.release", "path %d (%s): interior data pointer is not freed" % (k, Tn[t]), ok, where, fn=f.name,
+                chk.ob(R, "path %d (%s): interior data pointer is not freed" % (k, Tn[t]), ok, where, fn=f.name,
                        key="interior:%s:%d" % (Tn[t], k), detail="" if ok else "frees item->data, which points into the item block")
             elif t in must_free:
                 ok = len(data_frees) == 1
-                chk.ob("C04.release", "path %d (%s): the data block is freed exactly once" % (k, Tn[t]), ok, where, fn=f.name,
+                chk.ob(R, "path %d (%s): the data block is freed exactly once" % (k, Tn[t]), ok, where, fn=f.name,
                        key="data:%s:%d" % (Tn[t], k), detail="" if ok else "item->data freed %d times" % len(data_frees))
             else:
                 ok = len(data_frees) <= 1
-                chk.ob("C04.release", "path %d (%s): data (always NULL) freed at most once" % (k, Tn[t]), ok, where, fn=f.name,
+                chk.ob(R, "path %d (%s): data (always NULL) freed at most once" % (k, Tn[t]), ok, where, fn=f.name,
                        key="data:%s:%d" % (Tn[t], k), nontrivial=False)
+        # nothing is read out of a block after it has been freed (directly or through a callee that reads the data block)
+        for fe in frees[:-1]:
+            X = fe.args[0]
+            if not (X[0] == "ld" and X[1] == ITEM and X[2] == off["data"]):
+                continue
+            later = pa.events[pa.events.index(fe) + 1:]
+            uaf = None
+            for ev in later:
+                if ev.kind in ("load", "store") and isinstance(ev.args[0], tuple) and P.derives(ev.args[0], X) and ptr_key(ev.args[0])[0] != ITEM:
+                    uaf = "direct access at %s" % ev.ins.loc()
+                elif ev.kind == "call" and ev.ckind == "lib" and ITEM in ev.args and ev.callee != "cbor_decref":
+                    for q in cache.get(ev.callee):
+                        for le in q.events:
+                            if le.kind == "load":
+                                b_, o_ = ptr_key(le.args[0])
+                                if isinstance(b_, tuple) and b_[0] == "ld" and b_[1] == ("arg", 0) and b_[2] == off["data"]:
+                                    uaf = "%s() at %s reads inside the data block" % (ev.callee, ev.ins.loc())
+                if uaf:
+                    break
+            chk.ob(R, "path %d (%s): the data block is not read after it is freed" % (k, tname), uaf is None, fe.ins.loc(), fn=f.name,
+                   key="uaf:%s:%d" % (tname, k), detail="" if uaf is None else "item->data is freed at %s, then %s" % (fe.ins.loc(), uaf))
         # no block freed twice
         fa = [e.args[0] for e in frees]
         canon = [_canon(a) for a in fa]
         ok = len(set(canon)) == len(canon)
-        chk.ob("C04.release", "path %d (%s): no block is freed twice" % (k, tname), ok, where, fn=f.name, key="nodup:%s:%d" % (tname, k),
+        chk.ob(R, "path %d (%s): no block is freed twice" % (k, tname), ok, where, fn=f.name, key="nodup:%s:%d" % (tname, k),
                detail="" if ok else str(canon))
         # child slots
         iters = [(t, truth) for t, truth, _ in pa.facts if t[0] == "icmp" and t[1] == "ult" and t[2] == ("c", 0)]
@@ -311,14 +332,14 @@ def check_release(chk, prog, eff, cache, ctors, off):
                         for e in pa.events if e.kind == "call")
             if indef:
                 chunks_frees = [a for a in fa if a[0] == "ld" and a[1][0] == "ld" and a[1][1] == ITEM and a[1][2] == off["data"]]
-                chk.ob("C04.release", "path %d (%s indefinite): the chunk table is freed once" % (k, tname), len(chunks_frees) == 1, where,
+                chk.ob(R, "path %d (%s indefinite): the chunk table is freed once" % (k, tname), len(chunks_frees) == 1, where,
                        fn=f.name, key="chunks:%s:%d" % (tname, k))
                 if looped:
                     ok = len(decs) == 1 and _slot_of(decs[0].args[0], handle_getters, ITEM) and _bound_ok(iters, count_getters, ITEM, off)
-                    chk.ob("C04.release", "path %d (%s indefinite): each chunk slot [0, chunk_count) is released" % (k, tname), ok, where,
+                    chk.ob(R, "path %d (%s indefinite): each chunk slot [0, chunk_count) is released" % (k, tname), ok, where,
                            fn=f.name, key="slots:%s:%d" % (tname, k), detail="" if ok else "releases %s" % [d.args[0] for d in decs])
             else:
-                chk.ob("C04.release", "path %d (%s definite): no child release" % (k, tname), not decs, where, fn=f.name,
+                chk.ob(R, "path %d (%s definite): no child release" % (k, tname), not decs, where, fn=f.name,
                        key="noslots:%s:%d" % (tname, k))
         elif t0 == T["CBOR_TYPE_ARRAY"]:
             if looped:
@@ -326,12 +347,12 @@ def check_release(chk, prog, eff, cache, ctors, off):
                                     for t, truth, _ in pa.facts if isinstance(t[2], tuple) and t[2][0] == "ld" and t[2][1][0] == "idx")
                 if decs:
                     ok = len(decs) == 1 and _slot_of(decs[0].args[0], handle_getters, ITEM) and _bound_ok(iters, count_getters, ITEM, off) and nonnull_known
-                    chk.ob("C04.release", "path %d (array): each non-NULL slot [0, size) is released" % k, ok, where, fn=f.name,
+                    chk.ob(R, "path %d (array): each non-NULL slot [0, size) is released" % k, ok, where, fn=f.name,
                            key="slots:array:%d" % k)
                 else:
                     empty_known = any(t[0] == "icmp" and t[1] == "eq" and t[3] == ("c", 0) and truth and isinstance(t[2], tuple)
                                       and t[2][0] == "ld" and t[2][1][0] == "idx" for t, truth, _ in pa.facts)
-                    chk.ob("C04.release", "path %d (array): a slot is skipped only when it is NULL" % k, empty_known, where, fn=f.name,
+                    chk.ob(R, "path %d (array): a slot is skipped only when it is NULL" % k, empty_known, where, fn=f.name,
                            key="skip:array:%d" % k)
         elif t0 == T["CBOR_TYPE_MAP"]:
             if looped:
@@ -340,12 +361,12 @@ def check_release(chk, prog, eff, cache, ctors, off):
                 vals = [d for d in decs[1:]]
                 ok = okk and len(decs) in (1, 2) and all(ptr_key(v.args[0]) == (ptr_key(H)[0], ptr_key(H)[1] + 8) for v in vals) \
                     and _bound_ok(iters, count_getters, ITEM, off)
-                chk.ob("C04.release", "path %d (map): key released, value released unless NULL, for [0, end_ptr)" % k, ok, where, fn=f.name,
+                chk.ob(R, "path %d (map): key released, value released unless NULL, for [0, end_ptr)" % k, ok, where, fn=f.name,
                        key="slots:map:%d" % k, detail="" if ok else "releases %s" % [d.args[0] for d in decs])
                 if len(decs) == 1:
                     vnull = any(t[0] == "icmp" and t[1] == "eq" and t[3] == ("c", 0) and truth for t, truth, _ in pa.facts
                                 if isinstance(t[2], tuple) and t[2][0] == "ld" and t[2][2] == 8 and t[2][1] != ITEM)
-                    chk.ob("C04.release", "path %d (map): the value is skipped only when it is NULL" % k, vnull, where, fn=f.name, key="skip:map:%d" % k)
+                    chk.ob(R, "path %d (map): the value is skipped only when it is NULL" % k, vnull, where, fn=f.name, key="skip:map:%d" % k)
         elif t0 == T["CBOR_TYPE_TAG"]:
             tnull = None
             for t, truth, _ in pa.facts:
@@ -353,17 +374,17 @@ def check_release(chk, prog, eff, cache, ctors, off):
                     tnull = truth
             if tnull is False:
                 ok = len(decs) == 1 and ptr_key(decs[0].args[0]) == (ITEM, tag_off)
-                chk.ob("C04.release", "path %d (tag): the tagged item is released" % k, ok, where, fn=f.name, key="slots:tag:%d" % k)
+                chk.ob(R, "path %d (tag): the tagged item is released" % k, ok, where, fn=f.name, key="slots:tag:%d" % k)
             else:
-                chk.ob("C04.release", "path %d (tag): nothing to release when no item is attached" % k, not decs and tnull is True, where,
+                chk.ob(R, "path %d (tag): nothing to release when no item is attached" % k, not decs and tnull is True, where,
                        fn=f.name, key="skip:tag:%d" % k)
         else:
-            chk.ob("C04.release", "path %d (%s): leaf item, no child release" % (k, tname), not decs, where, fn=f.name,
+            chk.ob(R, "path %d (%s): leaf item, no child release" % (k, tname), not decs, where, fn=f.name,
                    key="leaf:%s:%d" % (tname, k))
     missing = [n for n, v in T.items() if v not in seen_types]
-    chk.ob("C04.release-exhaustive", "release switch covers every cbor_type", not missing, where, fn=f.name,
+    chk.ob(RX, "release switch covers every cbor_type", not missing, where, fn=f.name,
            detail="no arm for %s" % missing if missing else "")
-    chk.floor("C04.release", "zero-count paths", nz, 14)
+    chk.floor(R, "zero-count paths", nz, 14)
 
 
 def _canon(t):
